@@ -1,6 +1,7 @@
 package h
 
 import (
+	"os"
 	"fmt"
 	"math/big"
 	"sort"
@@ -164,6 +165,15 @@ func (m *MonGenesis) AfterBlock(s *Sim, req *BlockReq, res *BlockRes) {
 	var lost []string
 	derived := 0
 	isFresh := uint64(req.Height)%s.Opts.StakePeriod == 0
+	if isFresh && len(e.Candidates) > 100 {
+		// the running chain keeps a candidate ranked beyond 100 for one more period while it still is a validator
+		// (DeleteCandidate skips validators, the set is renewed after the recalculation); a chain started from the export has no
+		// validators yet when import recalculates and removes it at once: the same class of legitimate import-time
+		// reshuffle as away from payout heights (stakes become frozen funds, value conservation is checked below)
+		isFresh = false
+		m.Res.Count("payout_height_with_protected_validator_beyond_100", 1)
+		m.Res.Seen("export with a validator ranked beyond 100 still among the candidates")
+	}
 	reelected := false
 	all := DiffExports(mergeUpdates(e), mergeUpdates(&e2), 0)
 	for _, l := range all {
@@ -207,6 +217,12 @@ func (m *MonGenesis) AfterBlock(s *Sim, req *BlockReq, res *BlockRes) {
 	}
 	m.Res.Count("derived_value_differences", int64(derived))
 	if len(lost) > 0 {
+		if os.Getenv("C11_DEBUG") != "" {
+			fmt.Fprintf(os.Stderr, "C11DEBUG h=%d period=%d candidates %d -> %d, deleted %d -> %d\n", req.Height, s.Opts.StakePeriod, len(e.Candidates), len(e2.Candidates), len(e.DeletedCandidates), len(e2.DeletedCandidates))
+			for _, c := range e.Candidates {
+				fmt.Fprintf(os.Stderr, "   cand %d status %d total %s stakes %d updates %d\n", c.ID, c.Status, c.TotalBipStake, len(c.Stakes), len(c.Updates))
+			}
+		}
 		m.rep(s, "reexport-differs", pathClass(lost[0]), fmt.Sprint(clip(lost, 5)))
 		b.Destroy()
 		return
